@@ -102,6 +102,7 @@ class RemoveOverlapping:
 
     def requires(results, hmm_lengths):
         return (len(results) >= 1 and forall(range(0, len(results)), lambda i: hit_ok(results[i]))
+                and forall(range(0, len(results)), lambda i: hmm_lengths[results[i]._hit_id] > 0)
                 and forall(range(0, len(results)), lambda i: forall(
                     range(0, len(results)), lambda j: implies(i <= j, results[i]._query_start <= results[j]._query_start))))
 
